@@ -11,9 +11,26 @@ use std::sync::atomic::{AtomicU64, Ordering};
 use std::sync::Mutex;
 
 pub fn plane_lattice(margin: bool) -> Vec<(P2, &'static str)> {
+    plane_lattice_tier(margin, false)
+}
+pub fn plane_lattice_tier(margin: bool, dense: bool) -> Vec<(P2, &'static str)> {
     let rin = geo::face_inradius();
-    let afr = [1e-9, 1e-6, 0.1, 0.3, 0.5, 0.7, 0.9, 1.0 - 1e-6, 1.0 - 1e-9];
+    let mut afr: Vec<f64> = vec![1e-9, 1e-6, 0.1, 0.3, 0.5, 0.7, 0.9, 1.0 - 1e-6, 1.0 - 1e-9];
     let mut rfr: Vec<f64> = vec![0.0, 1e-12, 1e-9, 1e-6, 1e-5, 1e-4, 1e-3, 0.01, 0.1, 0.3, 0.5, 0.7, 0.9, 0.99, 1.0 - 1e-6, 1.0 - 1e-9, 1.0 - 1e-12, 1.0];
+    if dense {
+        afr.extend([0.0, 1e-12, 1e-3, 0.01, 0.05, 0.2, 0.4, 0.6, 0.8, 0.95, 0.99, 1.0 - 1e-3, 1.0 - 1e-12]);
+        // geometric ladder of radii: every threshold of the small-angle shortcuts lies between two rungs
+        let mut r = 1e-11;
+        while r < 0.9 {
+            rfr.push(r);
+            rfr.push(r * 2.2);
+            rfr.push(r * 4.7);
+            r *= 10.0;
+        }
+        for k in 1..20 {
+            rfr.push(k as f64 / 20.0);
+        }
+    }
     if margin {
         rfr.extend([1.0 + 1e-9, 1.02, 1.1, 1.25]);
     }
@@ -131,7 +148,7 @@ pub fn check_plane_point(q: P2, face: usize, worst: &Mutex<[f64; 3]>) -> Vec<Vio
 }
 
 pub fn sphere_vectors(tier: &str) -> Vec<(V3, &'static str)> {
-    let n = if tier == "quick" { 8192 } else { 262144 };
+    let n = if tier == "quick" { 65536 } else { 4194304 };
     let mut pts: Vec<(V3, &'static str)> = rg::fibonacci(n).into_iter().map(|v| (v, "uniform")).collect();
     for p in en::frame_points(tier != "quick") {
         pts.push((p.v, p.tag));
@@ -158,7 +175,7 @@ pub fn run_c15(tier: &str) -> Report {
     let worst = Mutex::new([0.0f64; 3]);
     let vs: Vec<Viol> = pts.par_iter().flat_map(|(v, _)| check_sphere_point(&f, &pent, *v, &worst)).collect();
     rep.sink.extend(vs);
-    let plane = plane_lattice(false);
+    let plane = plane_lattice_tier(false, tier != "quick");
     let mut plane_evals = 0u64;
     for face in 0..12usize {
         let vs: Vec<Viol> = plane.par_iter().flat_map(|(q, _)| check_plane_point(*q, face, &worst)).collect();
@@ -239,11 +256,11 @@ fn probe_clear(q: P2, radius: f64) -> bool {
 pub fn run_c16(tier: &str) -> Report {
     let mut rep = Report::new("exploration");
     let expected = geo::area_scale();
-    let radii: &[f64] = if tier == "quick" { &[1e-3] } else { &[1e-3, 1e-5] };
-    let rots: &[f64] = if tier == "quick" { &[0.3] } else { &[0.3, 1.1, 2.0] };
+    let radii: &[f64] = if tier == "quick" { &[1e-3, 1e-5] } else { &[1e-3, 1e-4, 1e-5, 1e-6, 1e-7] };
+    let rots: &[f64] = if tier == "quick" { &[0.3, 1.1] } else { &[0.3, 1.1, 2.0, 2.9] };
     let splits = 16;
     // base lattice + points at 2 probe radii on either side of every seam and of the face edge
-    let mut base: Vec<(P2, &'static str)> = plane_lattice(true);
+    let mut base: Vec<(P2, &'static str)> = plane_lattice_tier(true, tier != "quick");
     let rin = geo::face_inradius();
     for &rad in radii {
         for sector in 0..10 {
